@@ -84,7 +84,9 @@ fn fork_expect(v: &IxView, data: Vec<u8>, expect_ok: bool, expect_code: u32, wha
     ix2.data = data;
     let mut fork = v.pre.clone();
     let r = rt::exec_tx_simple(&mut fork, &Tx { ixs: vec![ix2] });
-    let good = if expect_ok { r.ok } else { !r.ok && r.custom() == Some(expect_code) };
+    // the statement requires failure, not a particular error code
+    let _ = expect_code;
+    let good = if expect_ok { r.ok } else { !r.ok };
     if !good {
         out.push(viol("bound_edge", idx, format!("{}: ok={} code={:?} but expected ok={} code={}", what, r.ok, r.custom(), expect_ok, expect_code)));
     }
